@@ -107,7 +107,13 @@ def run_replay(pid, path):
             continue
         p = core.Partial()
         mod.replay(doc["sub"], doc["case"], p)
-        outs.append([(v["sub"], v["msg"]) for v in p.violations])
+        findings = core.load_findings()
+        vs = [v for v in p.violations if core.match_finding(pid, v, findings) is None]
+        # a replay that has to re-run a small family reports only the recorded case when it can identify it
+        same = [v for v in vs if v["key"] and v["key"] == doc.get("key")]
+        if same:
+            vs = same
+        outs.append([(v["sub"], v["msg"]) for v in vs])
     if outs[0] != outs[1]:
         print(f"HARNESS-ERROR: replay of {path} is not deterministic: {outs}")
         return 2
